@@ -179,6 +179,14 @@ func (setup *SetupServerController) handleKeyExchange(in util.Container) (util.C
 	out.SetByte(TagSequence, setup.step.Byte())
 
 	data := in.GetBytes(TagEncryptedData)
+	if len(data) < 16 {
+		// The encrypted data must at least contain the 16 byte auth tag (MAC)
+		log.Info.Printf("Encrypted data of %d bytes is too short\n", len(data))
+		setup.reset()
+		out.SetByte(TagErrCode, ErrCodeUnknown.Byte()) // return error 1
+		return out, nil
+	}
+
 	message := data[:(len(data) - 16)]
 	var mac [16]byte
 	copy(mac[:], data[len(message):]) // 16 byte (MAC)
